@@ -6,7 +6,7 @@ ID = 'C09'
 FUNCTIONS = ['serialize.ImmutableSerializable.__setattr__/__delattr__/GetHash/__hash__', 'core.__make_mutable', 'core.*.from_outpoint/from_txin/from_txout/from_tx',
              'core.CTransaction.__init__ (freezing)', 'core.CMutableTransaction.__init__', 'core.CTransaction.GetTxid', 'script.RawSignatureHash',
              'scripteval.VerifyScript', 'serialize.Serializable.__eq__/__hash__']
-ASSUMPTIONS = ['SHA-256 uninterpreted (identifiers compared through pre-images)', 'hash() compared through its argument (hash tokens)']
+ASSUMPTIONS = ['SHA-256 uninterpreted (identifiers compared through pre-images)', 'ctx.hash() compared through its argument (hash tokens)']
 STUBS = ['hashlib (UF)', 'struct', 'io.BytesIO']
 OUTSIDE = ['histories longer than 3 (quick) / 4 (thorough) operations', 'in-place edits of a witness list shared between copies (the property excludes them)',
            'transactions with more than 3 inputs / outputs']
@@ -31,7 +31,7 @@ def _check_obj(ctx, obj, g, label):
     if not ctx.check(len(ser) == len(full), label, detail='serialised length'):
         return
     ctx.check(ctx.and_(ser == full, obj.GetTxid() == ctx.dsha256(W.tx(ctx, g, with_witness=False)), obj.GetHash() == ctx.dsha256(full),
-                       hash(obj) == hash(K.build_tx(ctx, g, False)), obj == K.build_tx(ctx, g, False)), label)
+                       ctx.hash(obj) == ctx.hash(K.build_tx(ctx, g, False)), obj == K.build_tx(ctx, g, False)), label)
 
 
 def h_history(ctx, n, first=None, second=None):
@@ -117,7 +117,7 @@ def h_history(ctx, n, first=None, second=None):
                     cg['vout'][0]['nValue'] = ctx.int(pre + 'cval', 0, 1 << 40)
                     c.vout[0].nValue = cg['vout'][0]['nValue']
             else:
-                m.GetTxid(), m.GetHash(), hash(m), m == m
+                m.GetTxid(), m.GetHash(), ctx.hash(m), m == m
         elif op == 14:
             ht = ctx.int(pre + 'ht', 0, 255)
             S.RawSignatureHash(S.CScript(ctx.B(b'\x51\xab\x52')), m, 0, ht)
